@@ -8,7 +8,7 @@
     10  model set_val (real)     fmt r o raw arr vd              -> codes, flags, read-back values
 *)
 From Coq Require Import ZArith List Bool.
-From FxpVerif Require Import Spec SpecArith NP Store Status Convert Arith Wire.
+From FxpVerif Require Import Spec SpecArith NP Store Status Convert Arith Div Wire.
 Import ListNotations.
 Open Scope Z_scope.
 
@@ -97,5 +97,18 @@ Definition dispatch (req : list Z) : list Z :=
   | 42 :: t => run (op <- daop ;; fx <- dfmt ;; cxs <- dlist dZ ;; fy <- dfmt ;; cys <- dlist dZ ;; fz <- dfmt ;; r <- drmode ;; o <- domode ;;
                     dret (op, fx, cxs, fy, cys, fz, r, o))
                 (fun '(op, fx, cxs, fy, cys, fz, r, o) => eoutcome (ewres fz) (arith_repr op fx cxs fy cys fz r o)) t
+  (* 43: spec of the division family on codes a (format fx) and b (format fy), b <> 0 *)
+  | 43 :: t => run (fx <- dfmt ;; a <- dZ ;; fy <- dfmt ;; b <- dZ ;; dret (fx, a, fy, b))
+                (fun '(fx, a, fy, b) =>
+                   efmt (grow_truediv fx fy) ++ [truediv_floor fx a fy b] ++ ebool (truediv_exactb fx a fy b)
+                   ++ efmt (grow_floordiv fx fy) ++ [floordiv_code fx a fy b]
+                   ++ efmt (grow_mod fx fy) ++ [mod_code fx a fy b]) t
+  (* 44: model of / // % (d = 0,1,2), method (0 raw, 1 repr), into the optimal format, modes r o *)
+  | 44 :: t => run (d <- dZ ;; m <- dZ ;; fx <- dfmt ;; cxs <- dlist dZ ;; fy <- dfmt ;; cys <- dlist dZ ;; r <- drmode ;; o <- domode ;;
+                    dret (d, m, fx, cxs, fy, cys, r, o))
+                (fun '(d, m, fx, cxs, fy, cys, r, o) =>
+                   let dd := match d with 0 => DTrue | 1 => DFloor | _ => DMod end in
+                   let fz := div_fmt dd fx fy in
+                   eoutcome (ewres fz) (if m =? 0 then div_raw dd fx cxs fy cys fz r o else div_repr dd fx cxs fy cys fz r o)) t
   | _ => bad_request
   end.
